@@ -62,3 +62,11 @@ package sub
 //@
 //@ func (*context).RecvMsg
 //@   ensures isnil(result1) ==> result0 != nil
+//@
+//@ func (*socket).OpenContext
+//@   ghost cl = s.closed at call:Lock#1
+//@   ensures cl ==> isnil(result0) && result1 == protocol.ErrClosed
+//@   ensures !cl ==> isnil(result1) && cast("*context", result0).s == s && has(s.ctxs, cast("*context", result0)) && !cast("*context", result0).closed
+//@   ensures !cl ==> cast("*context", result0).recvQLen == s.master.recvQLen
+//@   ensures !cl ==> cast("*context", result0).recvExpire == s.master.recvExpire
+//@   ensures !cl ==> cap(cast("*context", result0).recvQ) == s.master.recvQLen && len(cast("*context", result0).subs) == 0
